@@ -18,6 +18,7 @@ def run(ctx):
     import cacheimpl
     cacheimpl.run(ctx)
     buddy(ctx)
+    pressure_scripts(ctx)
     exe = ctx.harness("cache_drv", ["cache/cache_drv.cpp"])
     runs = []
     if q:
@@ -64,6 +65,38 @@ def run(ctx):
         os.remove(t)
     ctx.extra["rule"] = ("executions = Reset-delimited operation sequences run against the real cache with stats() after each; "
                          "distinct = distinct event texts among the first 4000 events of each driver run")
+
+
+def pressure_scripts(ctx):
+    """deterministic memory-pressure scenarios for the process-shared cache: one expired entry, several big live ones whose
+    recency order differs from their deadline order, then big stores that force several evictions in ONE store():
+    the victims must be the expired entry first and then the least recently used ones (CacheTrace.tla, named deviations)."""
+    exe = ctx.harness("cache_drv", ["cache/cache_drv.cpp"])
+    variants = [(120000, 0, 5, (3,)), (120000, 8, 5, (3, 5)), (60000, 0, 11, (4, 9)), (120000, 16, 5, ())]
+    if not ctx.quick:
+        variants += [(30000, 0, 24, (5, 17, 6)), (120000, 6, 5, (7, 3)), (60000, 12, 11, (13, 3, 8)), (200000, 0, 2, (3,))]
+    for i, (big, lim, n, touched) in enumerate(variants):
+        sc = "pressure\nbigstore 1 1 50\n"
+        for j in range(n):
+            sc += "bigstore %d %d %d\n" % (3 + j, 100 - j, big)
+        sc += "bigstore 2 5 60\n"
+        for k in touched:
+            sc += "fetch %d\n" % k
+        sc += "fetch 2\ntick 2\n"
+        for j in range(3):
+            sc += "bigstore %d 50 %d\n" % (3 + n + j, big)
+        for k in range(1, 3 + n + 3):
+            sc += "fetch %d\n" % k
+        t = os.path.join(ctx.work, "pressure-%d.ndjson" % i)
+        rc, out, err = ctx.run_harness(exe, ("script", "process", lim, 3 + n + 3), trace=t, stdin=sc, timeout=300)
+        if rc != 0:
+            ctx.undecided.append("pressure script %d failed rc=%s %s" % (i, rc, err[-300:])); continue
+        if i == 0:
+            ctx.sample({"pressure-script": [x for x in open(t).read().splitlines() if '"Store"' in x][-4:]})
+        cfg = "CacheTraceP.cfg" if 3 + n + 3 <= 16 else "CacheTraceP_big.cfg"
+        for x in ctx.validate("Cache/CacheTrace.tla", cfg, t, dfs=True):
+            ctx.violation("pressure:%s" % sig(x), "process-shared cache under memory pressure: not a behaviour of Cache (eviction order / stats) at %s" % x["event"][:160], x["path"])
+        os.remove(t)
 
 
 def buddy(ctx):
